@@ -266,7 +266,12 @@ def check_seeds_and_stats(fx, R):
                     R.holds('B7', '%s::compute:loop' % cname, 'the loop control visits every index once for N = %s' % (cov[1],), fx.rel(f['loc']), 'E-STEP')
                 else:
                     R.undecided('B7', '%s::compute:loop' % cname, 'the accumulation loop is not one of the enumerated forms over points[0..size)%s' % (': ' + cov[1] if cov else ''))
-        R.form(('+=', 'this.pointSetMean_', 'point') in ex and any(m(('/=', 'this.pointSetMean_', '$D'), s, {}) and 'size' in str(s) and 'points' in str(s) for s in ex),
+        mw = mean_w_value(fx, f, cname)
+        if mw[0] == 'violated':
+            R.violated('B7', 'PointSetPreconditioner::compute:mean:homogeneous-coordinate', mw[1] + ' [%s]' % cname, fx.rel(f['loc']), 'E-STEP')
+        elif mw[0] == 'holds':
+            R.holds('B7', '%s::compute:mean:homogeneous-coordinate' % cname, mw[1], fx.rel(f['loc']), 'E-STEP')
+        R.form((('+=', 'this.pointSetMean_', 'point') in ex and any(m(('/=', 'this.pointSetMean_', '$D'), s, {}) and 'size' in str(s) and 'points' in str(s) for s in ex)) or (True if mw[0] == 'violated' else None),
                 'B7', '%s::compute:mean' % cname, 'mean is not (sum of the points)/points.size(): %s' % [s for s in ex if 'pointSetMean_' in str(s)],
                 'mean = sum / size', fx.rel(f['loc']), 'E-ALG')
         sv = scale_value(fx, f, cname)
@@ -284,6 +289,68 @@ def check_seeds_and_stats(fx, R):
                 continue
             R.used(gf)
             R.form(returns(gf) == [nm], 'B7', '%s::%s' % (cname, g), '%s returns %s, not %s' % (g, returns(gf), nm), 'returns ' + nm, fx.rel(gf['loc']), 'E-SIB')
+
+
+def mean_w_value(fx, f, cname):
+    """For the homogeneous point types the mean is a homogeneous point too: every point has w = 1, so the centroid has w = 1.  compute() is stepped (E-STEP) on the scalar abstraction of the LAST coordinate of a
+    one-point set (value 1, size 1); a store into the leading CARTESIAN_DIM coordinates of a vector (`X.head(CARTESIAN_DIM) = ...`) does not write that coordinate.  ('holds'|'violated'|'skip', text)."""
+    if 'Homogeneous' not in cname:
+        return ('skip', '')
+    from .. import mini
+    from .C09 import _sizes
+    norm = lambda t: _sizes(deep_unwrap(t))
+    S = mini.Step(norm)
+
+    def set_const(t, env):
+        env[S.key(t[1])] = S.ev(t[2], env) if len(t) > 2 else 0.0
+        return 0
+    S.hooks['.setConstant'] = set_const
+    S.hooks['.setZero'] = lambda t, env: env.__setitem__(S.key(t[1]), 0.0) or 0
+    S.hooks['.fill'] = set_const
+    for h_ in ('.cast', '.head', '.topRows', '.eval'):          # reads of the Cartesian part feed Cartesian-sized locals only: their value does not reach the last coordinate
+        S.hooks[h_] = lambda t, env: S.ev(t[1], env)
+    env = {'points': 1.0}
+
+    def cartesian_only(x):
+        """statement that writes only the leading Cartesian coordinates of its target"""
+        if x.get('k') != 'Expr':
+            return False
+        t = deep_unwrap(sx(x['e']))
+        return isinstance(t, tuple) and len(t) == 3 and t[0] in ('=', '+=', '-=', '/=', '*=') and isinstance(t[1], tuple) and t[1][0] in ('.head', '.topRows', '.segment') and 'CARTESIAN_DIM' in str(t[1])
+
+    def run(x):
+        if x.get('k') == 'Compound':
+            for y in x['s']:
+                run(y)
+        elif x.get('k') in ('For', 'RangeFor'):
+            for v_ in ((x.get('init') or {}).get('vars') or []):
+                S.index_vars.add(v_['name'])
+            if x.get('k') == 'RangeFor' and x.get('var'):
+                env[x['var']['name']] = 1.0
+            run(x.get('b'))                       # one point
+        elif cartesian_only(x):
+            return
+        elif x.get('k') == 'Decl' and any((v_.get('t') or {}).get('c') not in ('fp', 'int') and not (v_.get('t') or {}).get('ref') for v_ in x['vars']):
+            for v_ in x['vars']:
+                env[v_['name']] = 0.0             # a local vector: its generic coordinate starts at 0 unless assigned
+                if v_.get('init') is not None:
+                    try:
+                        env[v_['name']] = S.ev(norm(sx(v_['init'])), env)
+                    except mini.Unsupported:
+                        pass
+        else:
+            S.run(x, env, ignore=('this.translation_', 'this.scale_', 'this.pointSetMin_', 'this.pointSetMax_'))
+    try:
+        run(f['body'])
+    except (mini.Unsupported, mini.Returned, TypeError, ZeroDivisionError) as e:
+        return ('skip', str(e))
+    got = env.get('this.pointSetMean_')
+    if isinstance(got, (int, float)) and abs(got - 1.0) < 1e-12:
+        return ('holds', 'the homogeneous coordinate of the mean of a set of points with w = 1 is 1')
+    if isinstance(got, (int, float)):
+        return ('violated', 'for this homogeneous point type the mean keeps the homogeneous coordinate %g: the centroid of points whose last coordinate is 1 has last coordinate 1 (the mean is written through the leading '
+                'CARTESIAN_DIM coordinates only, the last one keeps what it was reset to), so getPointSetMean() is not the componentwise centroid of the set' % got)
+    return ('skip', 'mean not evaluable')
 
 
 def scale_value(fx, f, cname):
